@@ -26,7 +26,15 @@ Round 2 (same clauses, inputs beyond the small scope; see the section "round 2" 
                         with in-place edits between the calls (also inside the three families above), each call judged
                         against the oracle for the model as it is then; the last call repeated in a fresh interpreter
                         (extra clause  ensures:same-verdict-as-in-a-fresh-process).
-A violation found there is recorded with the whole call sequence; `replay` rebuilds the objects once and re-applies the
+Round 3 (checks/C04_round3.py, same clauses): VOLUME between the small scope and the ladders
+  vol-general-integer      4..9 variables, 1..3 rows with entries up to 3 / 5 / 9, box 0..3 as explicit rows, multi-knapsack /
+                           covering / mixed-sign rows, pure and mixed general-integer, four cost shapes
+  vol-integral-lp-value    the same generator restricted to pure-integer programs whose costs are integer combinations of the
+                           rows: LP values that are exactly integral at fractional vertices
+  mixbin-continuous-cost   6..12 binaries + 1..2 continuous variables that carry a cost, two knapsack / covering rows
+  each under default / heuristics=False / heuristics+LNS / all-zero warm start, judged by exact enumeration of the box
+  (oracles.milp_exact.solve_int_box); tens of thousands of instances in the thorough tier.
+A violation found in round 2 is recorded with the whole call sequence; `replay` rebuilds the objects once and re-applies the
 recorded edits in place.   `python -m checks.C04 --fresh` (JSON on stdin) is the fresh-interpreter helper.
 """
 from __future__ import annotations
@@ -1381,6 +1389,9 @@ def work_big(unit):
 
 def work_item(item):
     tag, payload = item
+    if tag == "vol":
+        from checks import C04_round3 as R3
+        return [R3.work_vol(u) for u in payload]
     if tag == "big":
         return [work_big(payload)]
     if tag == "history":
@@ -1534,6 +1545,8 @@ def run(ctx: Ctx):
     use_repo()
     units = build_units(ctx)
     big, hist = build_round2(ctx)
+    from checks import C04_round3 as R3
+    vol = R3.build_units(ctx)  # round 3: volume families (own RNG stream: the rounds 1-2 inputs are unchanged)
     # order: the long single calls first (largest n first), then history sequences, then the small-scope chunks; one item
     # per task so that the pool balances itself; the order is fixed => deterministic
     rng = random.Random(ctx.seed + 1)
@@ -1544,6 +1557,7 @@ def run(ctx: Ctx):
     items = [("big", u) for u in big]
     items += [("history", hist[i:i + 10]) for i in range(0, len(hist), 10)]
     items += [("small", units[i:i + size]) for i in range(0, len(units), size)]
+    items += [("vol", vol[i:i + 25]) for i in range(0, len(vol), 25)]
     stat = {}
     noverdict = []
     per_ob = {}
@@ -1578,11 +1592,14 @@ def run(ctx: Ctx):
                 "non-trivial by the same relaxation rule on the model as it is at that call); ladder-blocks calls are non-trivial "
                 "when the instance has a block with an integrality gap (or an integer-infeasible, LP-feasible block); "
                 "long-run-single-row calls when the exact LP relaxation optimum differs from the meet-in-the-middle optimum; "
-                "ladder-planted-dual calls are never counted as non-trivial (LP optimum = MILP optimum by construction)")
+                "ladder-planted-dual calls are never counted as non-trivial (LP optimum = MILP optimum by construction). "
+                "Round-3 volume families (vol-*, mixbin-*): case and non-trivial as in round 1 (one direction per instance)")
     ctx.assumptions += [
         "float tolerance: rows/sign/integrality within 1e-6*(1+max|data|) (rows additionally scaled by 1+|row|_1); "
         "OPTIMAL compared within gap_tol*max(1,|obj|,|OPT|) + that tolerance; integer data with entries <= 6",
-        "bounded scope: n <= 5 variables, <= 5 user rows, box U <= 3 (explicit rows), see scopes; beyond it only the "
+        "bounded scope: n <= 5 variables, <= 5 user rows, box U <= 3 (explicit rows), see scopes; the volume families of "
+        "round 3 reach 9 general-integer variables (box 0..3) / 12 binaries + 2 continuous with entries <= 9, every instance "
+        "still enumerated exactly, but the instance space there is sampled, not exhausted; beyond that only the "
         "structured families of round 2 (block-diagonal, planted with duality certificate, one weight row), where the "
         "verdict is certified without enumeration; float tolerance there: 2e-6 flat (rows scaled by 1+|row|_1)",
         "history mode and the ladder / long-run families hand the solver the caller's own objects (no copies) and reuse "
@@ -1598,7 +1615,8 @@ def run(ctx: Ctx):
     ]
     ctx.trusted += ["oracles/milp_certs.py (meet-in-the-middle enumeration of one-row programs; block composition; LP-duality "
                     "certificate check; witnesses re-verified exactly against the rows handed to the solver)",
-                    "oracles/milp_exact.py (box enumeration; every witness re-verified exactly)",
+                    "oracles/milp_exact.py (box enumeration; solve_int_box: depth-first enumeration with feasibility-only "
+                    "shortcuts for the volume families; every witness re-verified exactly)",
                     "oracles/lp_exact.py (Fraction simplex, every answer validated by its certificate)"]
 
 
@@ -1687,8 +1705,12 @@ def replay(rec) -> int:
     if "history" in cs:
         return replay_history(cs)
     inst = {"c": cs["c"], "A": cs["A"], "b": cs["b"], "integers": cs["integers"]}
-    orc = exact(inst["c"], inst["A"], inst["b"], inst["integers"])
     mn = cs["minimize"]
+    if str(cs.get("family", "")).startswith(("vol-", "mixbin-")):  # round 3: the fast box enumeration (one direction)
+        from checks import C04_round3 as R3
+        orc = R3.oracle(inst, mn)
+    else:
+        orc = exact(inst["c"], inst["A"], inst["b"], inst["integers"])
     d = orc["dir"][mn]
     print(f"instance: {'min' if mn else 'max'} {inst['c']}.x  A={inst['A']} b={inst['b']} integers={inst['integers']}")
     print(f"oracle: {d['status']} value={d['value']} x={d['x']} complete={orc['complete']} "
